@@ -18,6 +18,8 @@ use crate::{
 pub struct JuiceStream<'a> {
     pub control_points: &'a [PathControlPoint], // needed for applying hr offset
     pub nested_objects: Drain<'a, NestedJuiceStreamObject>,
+    #[cfg(rosu_pp_verif)]
+    pub(crate) verif_events: String,
 }
 
 impl<'a> JuiceStream<'a> {
@@ -74,7 +76,13 @@ impl<'a> JuiceStream<'a> {
 
         let mut last_event_time = None;
 
+        #[cfg(rosu_pp_verif)]
+        let mut verif_events: Vec<String> = Vec::new();
+
         for e in events {
+            #[cfg(rosu_pp_verif)]
+            let verif_before = bufs.nested_objects.len();
+
             if let Some(last_event_time) = last_event_time {
                 let mut tiny_droplets = 0;
                 let since_last_tick = f64::from(e.time as i32 - last_event_time as i32);
@@ -108,6 +116,14 @@ impl<'a> JuiceStream<'a> {
 
             last_event_time = Some(e.time);
 
+            #[cfg(rosu_pp_verif)]
+            verif_events.push(format!(
+                r#"["{:?}",{},{}]"#,
+                e.kind,
+                e.time,
+                bufs.nested_objects.len() - verif_before
+            ));
+
             let kind = match e.kind {
                 SliderEventType::Tick => {
                     count.record_droplet();
@@ -134,6 +150,8 @@ impl<'a> JuiceStream<'a> {
         Self {
             control_points: slider.control_points.as_ref(),
             nested_objects: bufs.nested_objects.drain(..),
+            #[cfg(rosu_pp_verif)]
+            verif_events: verif_events.join(","),
         }
     }
 }
